@@ -132,6 +132,18 @@ def group_model(which, fam):
         for k in (0, 1, 2):
             pts[k].setdefault("beta", 2.0)
         mdl = history.Model("AeroPoint_rotational", build, pts, ["ap.CL", "ap.CD", "ap.CM"], ["alpha", "beta", "omega", "cg"], tol=1e-10)
+    elif which == "aero_beta":
+        def build(mode):
+            m = gen.make_mesh("twdi", 2, 5, "full", fam, asym=True)
+            w = builders.aero_surface("wing", m, False, with_viscous=True, with_wave=True, twist_cp=np.array([1.0, 2.0, 0.5]), CD0=0.01)
+            return builders.build_aero([w], dict(v=200.0, alpha=3.0, beta=2.0, rho=0.5, re=2e6, Mach_number=0.7, cg=[0.5, 0.1, 0.1]), with_geom=True, mode=mode, compressible=True)
+
+        pts = [
+            {"alpha": 3.0, "beta": 2.0, "Mach_number": 0.7, "wing.twist_cp": np.array([1.0, 2.0, 0.5])},
+            {"alpha": 3.0, "beta": -4.0, "Mach_number": 0.7, "wing.twist_cp": np.array([1.0, 2.0, 0.5])},
+            {"alpha": -1.0, "beta": 0.0, "Mach_number": 0.5, "wing.twist_cp": np.array([0.0, -1.0, 2.0])},
+        ]
+        mdl = history.Model("AeroPoint_compressible_sideslip", build, pts, ["ap.CL", "ap.CD", "ap.CM"], ["alpha", "beta", "Mach_number", "wing.twist_cp"], tol=1e-10)
     elif which == "as_pm":
         def build(mode):
             m = gen.make_mesh("twdi", 2, 3, "left", fam, span=10.0, chord=1.6)
@@ -222,7 +234,7 @@ def levels(tier, seed):
         for mode in ("fwd", "rev") if (idx < DEEP or tier == "thorough") else (("fwd", "rev")[idx % 2],):
             first.append(dict(level="comp", idx=idx, comp=COMP_MODELS[idx][0], mode=mode, fam=fam, hist=[["goto", 0]], maxd=depth if idx < DEEP else shallow))
     # group level: complete enumeration within the deviation bound (no pruning needed)
-    kd = {"aero": 2 if tier == "quick" else 3, "aero_rot": 1 if tier == "quick" else 2, "as_tube": 1 if tier == "quick" else 2, "as_wingbox": 1 if tier == "quick" else 2, "as_pm": 1 if tier == "quick" else 2}
+    kd = {"aero": 2 if tier == "quick" else 3, "aero_rot": 1 if tier == "quick" else 2, "aero_beta": 1 if tier == "quick" else 2, "as_tube": 1 if tier == "quick" else 2, "as_wingbox": 1 if tier == "quick" else 2, "as_pm": 1 if tier == "quick" else 2}
     gops = list(DEV_OPS) + ([["chk"]] if tier == "thorough" else [])
     group_states = []
     for which, k in kd.items():
@@ -235,7 +247,27 @@ def levels(tier, seed):
                 hs = hs + [BASE[:2] + [["chk"]] + BASE[2:4]]
             for h in hs:
                 group_states.append(dict(level="group", which=which, mode=mode, fam=fam, hist=h))
-    res = yield first + group_states
+    # "only one thing changed": for every model and every input, linearise at P0, then move ONLY that input to its P1 value
+    # and linearise again (a cache keyed on a subset of the inputs survives exactly such a transition)
+    single = []
+    for idx in range(len(COMP_MODELS)):
+        name, cfg = COMP_MODELS[idx]
+        mdl = comp_model(idx, fam)
+        for nm in mdl.wrt:
+            if np.array_equal(mdl.points[0][nm], mdl.points[1][nm]):
+                continue
+            mode = ("fwd", "rev")[(idx + len(single)) % 2]
+            single.append(dict(level="comp", idx=idx, comp=name, mode=mode, fam=fam, maxd=0, hist=[["goto", 0], ["tot"], ["gotom", 0, 1, nm], ["tot"]]))
+    for which in kd:
+        mdl = group_model(which, fam)
+        names = sorted(set(k for pt in mdl.points for k in pt))
+        for nm in names:
+            for other in (1, 2):
+                if nm not in mdl.points[0] or nm not in mdl.points[other] or np.array_equal(np.asarray(mdl.points[0][nm]), np.asarray(mdl.points[other][nm])):
+                    continue
+                for mode in ("fwd", "rev"):
+                    single.append(dict(level="group", which=which, mode=mode, fam=fam, hist=[["goto", 0], ["tot"], ["gotom", 0, other, nm], ["tot"]]))
+    res = yield first + group_states + single
     closed = 0
     for s, r in zip(first, res[: len(first)]):
         key = (s["idx"], s["mode"], r["hdigest"])
